@@ -373,6 +373,12 @@ impl Array4 {
                 }
                 let slot = get_slot(coupon) & ((1 << lg_config_k) - 1);
                 let value = get_value(coupon);
+                if value == 0 {
+                    // (slot 0, value 0) is the aux map's empty marker: it would be counted but not stored
+                    return Err(Error::deserial(
+                        "corrupted: aux entry without a value",
+                    ));
+                }
                 if aux.get(slot).is_some() {
                     return Err(Error::deserial(format!(
                         "corrupted: slot {slot} appears twice in the aux map"
